@@ -476,6 +476,32 @@ def _build(spec, variant=None):
 
     AT.ARRI[0] = arri
 
+    # 'prelude' (C06/C07): the model starts its life with a few continuous variables under an
+    # abs / 1-norm constraint (auxiliary columns) and an epigraph variable carrying the objective,
+    # is formulated or solved once, and only then gets the variables and constraints of the spec
+    # (integer variables declared behind columns an earlier formulation has used).  The prelude
+    # variables are decoupled (w = 0 is feasible), so every reference computation is unchanged.
+    pre = spec.get('prelude')
+    B.epi = None
+    if pre is not None:
+        pr = np.random.default_rng(int(pre))
+        w = m.dvar(int(pr.integers(1, 4)))
+        B.epi = m.dvar()
+        if spec['obj']['sense'] == 'min':
+            m.min(B.epi)
+            m.st(B.epi >= -1e4)
+        else:
+            m.max(B.epi)
+            m.st(B.epi <= 1e4)
+        m.st(rso.norm(w, 1) <= 5.0 if pr.random() < 0.5 else abs(w) <= 2.0)
+        how = int(pr.integers(3))
+        if how == 0:
+            m.do_math()
+        elif how == 1:
+            m.solve(display=False)
+        else:
+            from rsome import ort_solver
+            m.solve(ort_solver, display=False)
     xs = [m.dvar(b['n'], b['vtype']) for b in spec['blocks']]
     B.xs = xs
     off = np.concatenate(([0], np.cumsum([b['n'] for b in spec['blocks']])))
@@ -630,7 +656,12 @@ def _build(spec, variant=None):
         pw = rso.maxof(*pcs) if o['sense'] == 'min' else rso.minof(*pcs)
         e = pw + e
     B.obj_expr = e
-    if o['sense'] == 'min':
+    if B.epi is not None:
+        if o['sense'] == 'min':
+            m.st(e <= B.epi)
+        else:
+            m.st(e >= B.epi)
+    elif o['sense'] == 'min':
         m.min(e)
     else:
         m.max(e)
